@@ -5,9 +5,12 @@
   Model: Cello/Heap.lean (`fields`, `dfs` = GC_Mark_Item/GC_Recurse/GC_Mark_And_Recurse as a worklist, `gcMark` = the three
   phases of GC_Mark, `sweep` = the unlink phase of GC_Sweep, `collect`; `gcMarkFrom` = GC_Mark on a registry whose mark bits
   are partly set already, `release` = the release loop of GC_Sweep with Box_Del → del → GC_Rem_Ptr, `collectAll` = one whole
-  collection, `GState.run` = histories whose state includes the mark bits), Cello/HeapRec.lean (the mark phase with the C
+  collection from given bits, `collectWhole` = `GC_Mark; GC_Sweep` as the source has it (with `GC_Unmark` first, fix d8f0c4f),
+  `GState.run` = histories whose state includes the mark bits), Cello/HeapRec.lean (the mark phase with the C
   call structure and a depth budget).  Source-derived facts: CelloGen/GcMark.lean (leaf list of GC_Recurse, types declaring Mark, shape of
-  GC_Mark_And_Recurse, TLS callback, scan bound, texts of the Mark instances), entering through `Cfg.current`.
+  GC_Mark_And_Recurse, TLS callback, scan bound, texts of the Mark instances, the guard of Thread_Mark), entering through
+  `Cfg.current`; whether GC_Mark clears the mark bits first: `clearFirstNow`.  The collector before a repair is an explicit OLD
+  variant of the model (`clearFirst := false`, `Cfg.preThreadGuard`, `remPtrPre`, `tlsCallback := false`, `guarded := false`).
   All theorems hold for every implementation `S : MarkSet σ` of the mark bits (the driver runs the hash-set one).
 -/
 import Cello.Heap
@@ -51,8 +54,9 @@ theorem C01_mark_instances_unconditional :
     `GC_Set` runs `GC_Mark(gc); GC_Sweep(gc);` with no handler in between (an exception that leaves `GC_Mark` skips the sweep);
     the release loop of `GC_Sweep`, `Box_Del` (deletes its target), `del` (→ `rem(current(GC), ·)`), the two branches of
     `GC_Rem_Ptr` (free list, then registry) and which container destructors `destruct` their embedded elements are the ones
-    `Cello.Heap.release` / `owns` were written against.  Whether `GC_Mark` clears the bits before it starts is NOT fixed here:
-    it enters the theorems as `CelloGen.GcMark.markClearsFirst`. -/
+    `Cello.Heap.release` / `owns` were written against, including the early-out of `GC_Rem_Ptr` for NULL (fix d3e4e44).  Whether
+    `GC_Mark` clears the bits before it starts enters the theorems as `clearFirstNow` (= `CelloGen.GcMark.markClearsFirst`);
+    that it does (fix d8f0c4f) is part of `C01_tables`. -/
 theorem C01_collector_state_as_modelled :
     CelloGen.GcMark.markBitLife = (true, true, true) ∧
     CelloGen.GcMark.releaseLoop = CelloGen.GcMark.releaseLoopModelled ∧
@@ -241,76 +245,130 @@ theorem C01_box_contract (wf : h.WF) (thread : Obj) (stack : List Word)
     boxExclusive S c h thread stack S.empty = true :=
   boxExclusive_of_contract S c h wf thread stack hc
 
-/-- **T1 `collect_safe` for one WHOLE collection — partial.**  `GC_Mark`, `GC_Sweep` including its release loop.  Every
-    registered object reachable from thread-local storage, a root-registered entry or a stack word (along registered objects)
-    is still registered afterwards with unchanged contents, was not put on the pending list and was not finalised,
-    UNDER TWO EXPLICIT HYPOTHESES:
-    * `hclean` — no mark bit is set when the collection begins.  Not provable from the code as it is: a mark phase that an
-      exception leaves keeps its bits (known finding KF-C01-stale-marks, `C01_collect_safe_stale_refuted`); it holds along
-      histories in which no exception leaves a mark phase, or once `GC_Mark` clears the bits first (`C01_history_safe_partial`).
+/-- **T1 `collect_safe` for one WHOLE collection — partial.**  `GC_Mark` — with `GC_Unmark` first iff `cf` —, `GC_Sweep` including
+    its release loop, entered with the mark bits `m0` set.  Every registered object reachable from thread-local storage, a
+    root-registered entry or a stack word (along registered objects) is still registered afterwards with unchanged contents,
+    was not put on the pending list and was not finalised, UNDER TWO EXPLICIT HYPOTHESES:
+    * `hclean` — `GC_Mark` clears the bits first (`cf = true`: the source since fix d8f0c4f, `C01_collect_safe_current`), or no
+      mark bit is set when the collection begins.  Without it (the OLD variant `cf = false` entered with stale bits — a mark
+      phase that an exception left keeps its bits): `C01_collect_safe_stale_refuted`.
     * `hbox` — no entry the sweep frees owns an entry that stays registered.  This is Box's ownership contract (a Box deletes its
       target when it dies), a restriction of the property, not a defect: `C01_box_contract` derives it from "no reachable
       object is owned by an unreachable one"; without it `C01_collect_safe_box_refuted`.
     The full statement is `C01_collect_safe_statement`. -/
-theorem C01_collect_safe_partial (wf : h.WF) (thread : Obj) (stack : List Word) (m0 : σ) (a : Addr)
+theorem C01_collect_safe_partial (cf : Bool) (wf : h.WF) (thread : Obj) (stack : List Word) (m0 : σ) (a : Addr)
     (hr : Reachable c h (rootWords c h thread stack) a)
-    (hclean : ∀ x, S.mem x m0 = false)
-    (hbox : boxExclusive S c h thread stack m0 = true) :
-    (collectAll S c h thread stack m0).heap.lookup a = h.lookup a ∧ (h.lookup a).isSome = true ∧
-      a ∉ (collectAll S c h thread stack m0).pending ∧ a ∉ (collectAll S c h thread stack m0).finalised := by
+    (hclean : cf = true ∨ ∀ x, S.mem x m0 = false)
+    (hbox : boxExclusive S c h thread stack (startBits S cf m0) = true) :
+    (collectWhole S c cf h thread stack m0).heap.lookup a = h.lookup a ∧ (h.lookup a).isSome = true ∧
+      a ∉ (collectWhole S c cf h thread stack m0).pending ∧ a ∉ (collectWhole S c cf h thread stack m0).finalised := by
   have hreg : (h.lookup a).isSome = true := by
     cases hr with
     | root _ hreg => exact hreg
     | step _ _ hreg => exact hreg
-  have hm : S.mem a (gcMarkFrom S c h thread stack m0) = true := by
+  have hcl : ∀ x, S.mem x (startBits S cf m0) = false := by
+    intro x
+    unfold startBits
+    split
+    · exact S.mem_empty x
+    · rename_i hcf
+      rcases hclean with h1 | h1
+      · exact absurd h1 hcf
+      · exact h1 x
+  have hm : S.mem a (gcMarkFrom S c h thread stack (startBits S cf m0)) = true := by
     rw [gcMarkFrom_iff S c h wf]
     right
-    have : (fun x => S.mem x m0) = fun _ => false := funext hclean
+    have : (fun x => S.mem x (startBits S cf m0)) = fun _ => false := funext hcl
     rw [this]
     exact (reachableUnmarked_none _ _).mpr hr
-  obtain ⟨e1, e2, e3⟩ := collectAll_keeps_marked S c h thread stack m0 a hm hbox
+  obtain ⟨e1, e2, e3⟩ := collectAll_keeps_marked S c h thread stack (startBits S cf m0) a hm hbox
   exact ⟨e1, hreg, e2, e3⟩
 
 end whole
 
+/-- in the source as it is, the three phases of `GC_Mark` start from no bits, whatever was set (`GC_Unmark`, fix d8f0c4f) -/
+theorem C01_starts_clean {σ : Type} (S : MarkSet σ) (m0 : σ) : startBits S clearFirstNow m0 = S.empty := by
+  have : clearFirstNow = true := by decide
+  simp [startBits, this]
+
+/-- **`collect_safe` for one whole collection of the code in /repo now: NO hypothesis on the mark bits.**  Whatever bits are set
+    when `GC_Mark` is entered (left by a mark phase that an exception left, or by anything else), every registered object
+    reachable from the roots stays registered with unchanged contents, off the pending list and is not finalised — at every
+    collection at which no freed entry owns a surviving one (Box's ownership contract, the remaining exclusion). -/
+theorem C01_collect_safe_current {σ : Type} (S : MarkSet σ) (h : Heap) (wf : h.WF) (thread : Obj) (stack : List Word) (m0 : σ)
+    (a : Addr) (hr : Reachable Cfg.current h (rootWords Cfg.current h thread stack) a)
+    (hbox : boxExclusive S Cfg.current h thread stack S.empty = true) :
+    (collectWhole S Cfg.current clearFirstNow h thread stack m0).heap.lookup a = h.lookup a ∧ (h.lookup a).isSome = true ∧
+      a ∉ (collectWhole S Cfg.current clearFirstNow h thread stack m0).pending ∧
+      a ∉ (collectWhole S Cfg.current clearFirstNow h thread stack m0).finalised :=
+  C01_collect_safe_partial S Cfg.current h clearFirstNow wf thread stack m0 a hr (.inl (by decide))
+    (by rw [C01_starts_clean]; exact hbox)
+
 /-- the full statement of `collect_safe` for one whole collection: no hypothesis on the mark bits that are set when it begins,
-    none on what the freed objects own -/
-def C01_collect_safe_statement : Prop :=
+    none on what the freed objects own (`cf`: does `GC_Mark` clear the bits first) -/
+def C01_collect_safe_statement (cf : Bool) : Prop :=
   ∀ (h : Heap), h.WF → ∀ (thread : Obj) (stack : List Word) (marked : List Addr) (a : Addr),
     Reachable Cfg.current h (rootWords Cfg.current h thread stack) a →
-      a ∉ (collectAll listSet Cfg.current h thread stack (seed listSet marked)).pending ∧
-      a ∉ (collectAll listSet Cfg.current h thread stack (seed listSet marked)).finalised
+      a ∉ (collectWhole listSet Cfg.current cf h thread stack (seed listSet marked)).pending ∧
+      a ∉ (collectWhole listSet Cfg.current cf h thread stack (seed listSet marked)).finalised
 
-/-- **Refuted (Box's ownership contract, an exclusion): `collect_safe` without `hbox`.**  4096 ↦ a root-registered Ref to the
-    Probe at 4160, 4224 ↦ a Box on the same Probe that nothing refers to.  One collection on clear mark bits: the Probe is
-    marked and stays off the pending list; the Box is swept; the release loop runs `Box_Del`, `del` finds the Probe IN THE
-    REGISTRY and finalises it — a reachable, root-referenced object (witness corpus/gcmark_box_shared_target.ops). -/
-theorem C01_collect_safe_box_refuted :
+/-- the statement with Box's ownership contract as its only hypothesis: any mark bits may be set when the collection begins -/
+def C01_collect_safe_any_bits_statement (cf : Bool) : Prop :=
+  ∀ (h : Heap), h.WF → ∀ (thread : Obj) (stack : List Word) (marked : List Addr) (a : Addr),
+    Reachable Cfg.current h (rootWords Cfg.current h thread stack) a →
+    boxExclusive listSet Cfg.current h thread stack (startBits listSet cf (seed listSet marked)) = true →
+      a ∉ (collectWhole listSet Cfg.current cf h thread stack (seed listSet marked)).pending ∧
+      a ∉ (collectWhole listSet Cfg.current cf h thread stack (seed listSet marked)).finalised
+
+/-- **… which is a theorem for the code in /repo now** (it was refuted before fix d8f0c4f: `C01_collect_safe_stale_refuted`) -/
+theorem C01_collect_safe_any_bits : C01_collect_safe_any_bits_statement clearFirstNow := by
+  intro h wf thread stack marked a hr hbox
+  obtain ⟨_, _, e3, e4⟩ := C01_collect_safe_partial listSet Cfg.current h clearFirstNow wf thread stack (seed listSet marked) a hr
+    (.inl (by decide)) hbox
+  exact ⟨e3, e4⟩
+
+/-- **Refuted (Box's ownership contract, an exclusion): `collect_safe` without `hbox`**, whether `GC_Mark` clears the bits first or
+    not.  4096 ↦ a root-registered Ref to the Probe at 4160, 4224 ↦ a Box on the same Probe that nothing refers to.  One
+    collection on clear mark bits: the Probe is marked and stays off the pending list; the Box is swept; the release loop runs
+    `Box_Del`, `del` finds the Probe IN THE REGISTRY and finalises it — a reachable, root-referenced object (witness
+    corpus/gcmark_box_shared_target.ops). -/
+theorem C01_collect_safe_box_refuted (cf : Bool) :
     boxHeap.WF ∧ Reachable Cfg.current boxHeap (rootWords Cfg.current boxHeap emptyThread []) 4160 ∧
-    4160 ∈ (collectAll listSet Cfg.current boxHeap emptyThread [] (seed listSet [])).finalised ∧
-    4160 ∉ (collectAll listSet Cfg.current boxHeap emptyThread [] (seed listSet [])).pending ∧
-    boxExclusive listSet Cfg.current boxHeap emptyThread [] (seed listSet []) = false ∧
-    ¬ C01_collect_safe_statement := by
+    4160 ∈ (collectWhole listSet Cfg.current cf boxHeap emptyThread [] (seed listSet [])).finalised ∧
+    4160 ∉ (collectWhole listSet Cfg.current cf boxHeap emptyThread [] (seed listSet [])).pending ∧
+    boxExclusive listSet Cfg.current boxHeap emptyThread [] (startBits listSet cf (seed listSet [])) = false ∧
+    ¬ C01_collect_safe_statement cf := by
+  have hs : startBits listSet cf (seed listSet []) = [] := by cases cf <;> rfl
   obtain ⟨h1, h2, h3⟩ := boxHeap_collect
-  refine ⟨boxHeap_wf, boxHeap_reach, h1, h2, h3, ?_⟩
-  intro hs
-  exact (hs boxHeap boxHeap_wf emptyThread [] [] 4160 boxHeap_reach).2 h1
+  have h1' : 4160 ∈ (collectWhole listSet Cfg.current cf boxHeap emptyThread [] (seed listSet [])).finalised := by
+    unfold collectWhole; rw [hs]; exact h1
+  have h2' : 4160 ∉ (collectWhole listSet Cfg.current cf boxHeap emptyThread [] (seed listSet [])).pending := by
+    unfold collectWhole; rw [hs]; exact h2
+  refine ⟨boxHeap_wf, boxHeap_reach, h1', h2', by rw [hs]; exact h3, ?_⟩
+  intro hst
+  exact (hst boxHeap boxHeap_wf emptyThread [] [] 4160 boxHeap_reach).2 h1'
 
-/-- **Refuted (known finding KF-C01-stale-marks, not repaired): `collect_safe` without `hclean`.**  4096 ↦ a root-registered
-    Ref that points to the Probe at 4224, 4160 ↦ an (empty) heap Tuple on the stack; the bits of 4096 and 4160 are still set
-    from a mark phase that an exception left.  The root loop of `GC_Mark` skips the marked root entry, `GC_Mark_Item` skips the
-    marked Tuple: the Probe — referenced directly by a root-registered entry — is not marked and is swept.  No entry owns
-    anything here (`hbox` holds).  With the bits cleared first the Probe is kept. -/
+/-- **Refuted for the OLD variant (the collector before fix d8f0c4f, `cf = false`; was known finding KF-C01-stale-marks):
+    `collect_safe` entered with stale bits.**  4096 ↦ a root-registered Ref that points to the Probe at 4224, 4160 ↦ an (empty)
+    heap Tuple on the stack; the bits of 4096 and 4160 are still set from a mark phase that an exception left.  Without
+    `GC_Unmark` the root loop of `GC_Mark` skips the marked root entry, `GC_Mark_Item` skips the marked Tuple: the Probe —
+    referenced directly by a root-registered entry — is not marked and is swept.  No entry owns anything here (`hbox` holds).
+    With the bits cleared first (`cf = true`, the code in /repo now) the Probe is kept. -/
 theorem C01_collect_safe_stale_refuted :
     staleHeap2.WF ∧ Reachable Cfg.current staleHeap2 (rootWords Cfg.current staleHeap2 emptyThread [4160]) 4224 ∧
-    4224 ∈ (collectAll listSet Cfg.current staleHeap2 emptyThread [4160] (seed listSet [4096, 4160])).pending ∧
-    boxExclusive listSet Cfg.current staleHeap2 emptyThread [4160] (seed listSet [4096, 4160]) = true ∧
-    4224 ∉ (collectAll listSet Cfg.current staleHeap2 emptyThread [4160] (seed listSet [])).pending ∧
-    ¬ C01_collect_safe_statement := by
-  refine ⟨staleHeap2_wf, staleHeap2_reach, staleHeap2_swept,
-    boxExclusive_of_no_owner listSet _ _ _ _ _ staleHeap2_no_owner, staleHeap2_kept, ?_⟩
-  intro hs
-  exact (hs staleHeap2 staleHeap2_wf emptyThread [4160] [4096, 4160] 4224 staleHeap2_reach).1 staleHeap2_swept
+    4224 ∈ (collectWhole listSet Cfg.current false staleHeap2 emptyThread [4160] (seed listSet [4096, 4160])).pending ∧
+    boxExclusive listSet Cfg.current staleHeap2 emptyThread [4160] (startBits listSet false (seed listSet [4096, 4160])) = true ∧
+    4224 ∉ (collectWhole listSet Cfg.current true staleHeap2 emptyThread [4160] (seed listSet [4096, 4160])).pending ∧
+    ¬ C01_collect_safe_any_bits_statement false ∧ ¬ C01_collect_safe_statement false := by
+  have hb := boxExclusive_of_no_owner listSet Cfg.current staleHeap2 emptyThread [4160]
+    (startBits listSet false (seed listSet [4096, 4160])) staleHeap2_no_owner
+  have hsw : 4224 ∈ (collectWhole listSet Cfg.current false staleHeap2 emptyThread [4160] (seed listSet [4096, 4160])).pending :=
+    staleHeap2_swept
+  refine ⟨staleHeap2_wf, staleHeap2_reach, hsw, hb, staleHeap2_kept, ?_, ?_⟩
+  · intro hs
+    exact (hs staleHeap2 staleHeap2_wf emptyThread [4160] [4096, 4160] 4224 staleHeap2_reach hb).1 hsw
+  · intro hs
+    exact (hs staleHeap2 staleHeap2_wf emptyThread [4160] [4096, 4160] 4224 staleHeap2_reach).1 hsw
 
 /-! ### histories -/
 
@@ -324,13 +382,15 @@ def GEvent.exclusive {σ : Type} (S : MarkSet σ) (c : Cfg) (ev : GEvent) : Bool
     changes of thread-local storage and of the stack, explicit deletions, collections that run to completion, collections
     whose mark phase is left by an exception after any number of marking events (`GOp.raise`: the bits set so far stay, the
     sweep is skipped), registry rehashes (which clear the bits).  `cf` says whether `GC_Mark` clears the bits before it starts.
-    If `cf = true` (the repaired code), or if no bit is set initially and no exception leaves a mark phase (`GOp.completes`),
-    then from any well-formed registry: the registry stays well formed, every completed collection starts with all bits
-    clear, and every object reachable at that moment from thread-local storage, a root-registered entry or a stack word is
-    not put on the pending list, stays registered — and, at every collection at which no freed entry owns a surviving one
-    (`GEvent.exclusive`, Box's ownership contract), is not finalised by the release loop and keeps its contents.
-    The full statement is `C01_history_safe_statement cf`; refuted for the code as it is (`cf = false`) by
-    `C01_stale_marks_refuted`, and for either `cf` without the ownership hypothesis by `C01_box_shared_target_refuted`. -/
+    If `cf = true` (the code in /repo now: `C01_current_source_history`, no such hypothesis), or if no bit is set initially and
+    no exception leaves a mark phase (`GOp.completes`), then from any well-formed registry: the registry stays well formed,
+    every completed collection starts its three phases with all bits clear, and every object reachable at that moment from
+    thread-local storage, a root-registered entry or a stack word is not put on the pending list, stays registered — and, at
+    every collection at which no freed entry owns a surviving one (`GEvent.exclusive`, Box's ownership contract), is not
+    finalised by the release loop and keeps its contents.
+    The full statement is `C01_history_safe_statement cf`; refuted for either `cf` without the ownership hypothesis by
+    `C01_box_shared_target_refuted`; with the ownership hypothesis only (`C01_history_safe_exclusive_statement cf`) it is a
+    theorem for the current source and refuted for the OLD variant `cf = false` by `C01_stale_marks_refuted`. -/
 theorem C01_history_safe_partial {σ : Type} (S : MarkSet σ) (c : Cfg) (cf : Bool) (ops : List GOp) (s0 : GState)
     (wf : s0.heap.WF) (hok : ∀ op ∈ ops, op.ok)
     (hclean : cf = true ∨ (s0.stale = [] ∧ ∀ op ∈ ops, op.completes = true)) :
@@ -349,10 +409,10 @@ theorem C01_history_safe_partial {σ : Type} (S : MarkSet σ) (c : Cfg) (cf : Bo
   refine ⟨?_, hsw.2.1, ?_⟩
   · rw [hp, collectAll_pending]; exact hsw.2.2
   · intro hex
-    have hbox : boxExclusive S c ev.before.heap ev.before.thread ev.before.stack S.empty = true := by
-      simpa [GEvent.exclusive, hs0, seed_nil] using hex
-    obtain ⟨e1, _, _, e4⟩ := C01_collect_safe_partial S c ev.before.heap hwf ev.before.thread ev.before.stack S.empty a hr
-      S.mem_empty hbox
+    have hbox : boxExclusive S c ev.before.heap ev.before.thread ev.before.stack (startBits S true S.empty) = true := by
+      simpa [GEvent.exclusive, hs0, seed_nil, startBits] using hex
+    obtain ⟨e1, _, _, e4⟩ := C01_collect_safe_partial S c ev.before.heap true hwf ev.before.thread ev.before.stack S.empty a hr
+      (.inl rfl) hbox
     exact ⟨by rw [hf]; exact e4, by rw [ha]; exact e1⟩
 
 /-- the full statement over histories, for a collector whose `GC_Mark` clears the bits first (`cf = true`) or not -/
@@ -362,16 +422,26 @@ def C01_history_safe_statement (cf : Bool) : Prop :=
       Reachable Cfg.current ev.before.heap (rootWords Cfg.current ev.before.heap ev.before.thread ev.before.stack) a →
         a ∉ ev.pending ∧ a ∉ ev.finalised
 
-/-- **Refuted (known finding KF-C01-stale-marks, not repaired): histories in which an exception leaves a mark phase.**
+/-- the statement over ALL histories — exceptions may leave mark phases, any bits may be set initially — with Box's ownership
+    contract as the only hypothesis, at the collections it concerns -/
+def C01_history_safe_exclusive_statement (cf : Bool) : Prop :=
+  ∀ (ops : List GOp) (s0 : GState), s0.heap.WF → (∀ op ∈ ops, op.ok) →
+    ∀ ev ∈ (GState.run listSet Cfg.current cf ops s0).2, ∀ a,
+      Reachable Cfg.current ev.before.heap (rootWords Cfg.current ev.before.heap ev.before.thread ev.before.stack) a →
+        a ∉ ev.pending ∧ (ev.exclusive listSet Cfg.current = true → a ∉ ev.finalised ∧ ev.after.lookup a = ev.before.heap.lookup a)
+
+/-- **Refuted for the OLD variant (the collector before fix d8f0c4f, `cf = false`; was known finding KF-C01-stale-marks):
+    histories in which an exception leaves a mark phase.**
     Start: 4096 ↦ a root-registered Ref (empty), 4160 ↦ a heap Tuple whose only item (4288) has been deleted by hand
     (KF-C01-dangling-tuple-item), 4224 ↦ a Probe; the Tuple and the Probe are on the stack; no bit is set.
     1. a collection: the root loop marks 4096, the stack scan marks 4160, `Tuple_Mark` hands 4288 to `GC_Mark_And_Recurse`,
        which calls `GC_Recurse` on the freed block — outside the model (`.ub`); on the real machine `type_of` throws ValueError
        on the `0xDeadCe110` fill.  The exception leaves `GC_Mark` after two marking events: no sweep, both bits stay (`GOp.raise 2`);
     2. the program catches it, empties the Tuple, stores the Probe into the root Ref and drops it from the stack;
-    3. the next collection: both roots are skipped as already marked, the Probe — referenced DIRECTLY by a root-registered
-       entry — is put on the pending list.  (Witness corpus/kf_c01_stale_marks.ops, with a Mark instance that throws.)
-    With the bits cleared at the start of `GC_Mark` (`cf = true`: the repair) the same history keeps the Probe. -/
+    3. the next collection: WITHOUT `GC_Unmark` both roots are skipped as already marked, the Probe — referenced DIRECTLY by a
+       root-registered entry — is put on the pending list.  (Witness corpus/gcmark_stale_marks_fixed.ops, with a Mark instance
+       that throws: a regression input now.)
+    With the bits cleared at the start of `GC_Mark` (`cf = true`: the code in /repo now) the same history keeps the Probe. -/
 theorem C01_stale_marks_refuted :
     staleStart.heap.WF ∧ staleStart.stale = [] ∧ (∀ op ∈ staleOps, op.ok) ∧
     markEvents Cfg.current staleStart.heap staleStart.thread staleStart.stack [] = [4096, 4160, 4224] ∧
@@ -380,14 +450,14 @@ theorem C01_stale_marks_refuted :
       Reachable Cfg.current ev.before.heap (rootWords Cfg.current ev.before.heap ev.before.thread ev.before.stack) 4224 ∧
       4224 ∈ ev.pending ∧ ev.started = [4096, 4160] ∧ ev.exclusive listSet Cfg.current = true) ∧
     (∀ ev ∈ (GState.run listSet Cfg.current true staleOps staleStart).2, 4224 ∉ ev.pending) ∧
-    ¬ C01_history_safe_statement false := by
+    ¬ C01_history_safe_statement false ∧ ¬ C01_history_safe_exclusive_statement false := by
   have hex : ∃ ev ∈ (GState.run listSet Cfg.current false staleOps staleStart).2,
       Reachable Cfg.current ev.before.heap (rootWords Cfg.current ev.before.heap ev.before.thread ev.before.stack) 4224 ∧
       4224 ∈ ev.pending ∧ ev.started = [4096, 4160] ∧ ev.exclusive listSet Cfg.current = true := by
     rw [staleRun_events false]
     refine ⟨_, List.mem_cons_self, staleHeap2_reach, staleHeap2_swept, rfl, ?_⟩
     exact boxExclusive_of_no_owner listSet _ _ _ _ _ staleHeap2_no_owner
-  refine ⟨staleHeap_wf, rfl, staleOps_ok, staleHeap_events, ?_, hex, ?_, ?_⟩
+  refine ⟨staleHeap_wf, rfl, staleOps_ok, staleHeap_events, ?_, hex, ?_, ?_, ?_⟩
   · intro d
     exact tuple_unregistered_item_ub listSet Cfg.current staleHeap staleHeap_wf (by decide) (by decide) (by decide)
       4160 4288 [] false rfl rfl d
@@ -399,6 +469,9 @@ theorem C01_stale_marks_refuted :
   · intro hs
     obtain ⟨ev, hev, hr, hp, _, _⟩ := hex
     exact (hs staleOps staleStart staleHeap_wf rfl staleOps_ok ev hev 4224 hr).1 hp
+  · intro hs
+    obtain ⟨ev, hev, hr, hp, _, _⟩ := hex
+    exact (hs staleOps staleStart staleHeap_wf staleOps_ok ev hev 4224 hr).1 hp
 
 /-- **Refuted (Box's ownership contract, an exclusion): histories without `GEvent.exclusive`**, whether `GC_Mark` clears the
     bits first or not: one collection on `boxHeap` (a garbage Box on a Probe that a root-registered Ref refers to). -/
@@ -582,13 +655,16 @@ theorem C01_rec_completes {σ : Type} (S : MarkSet σ) (c : Cfg) (h : Heap) (hg 
 /-! ### the current source -/
 
 /-- **T1 table facts** over the lists generated from the source: every container type declares `Mark`, none of the
-    pointer-carrying types is a leaf type, and the two repairs and the scan bound are in place. -/
+    pointer-carrying types is a leaf type, and the repairs (guarded callback 7d133ba, TLS through the callback fc3452e,
+    `GC_Mark` clears the mark bits first d8f0c4f) and the scan bound are in place; `Thread_Mark` presents the table of every
+    Thread object (the guard of 80c795e was withdrawn by 0a0ad73: `C01_thread_guard_refuted`). -/
 theorem C01_tables :
     (∀ ty ∈ ["Array", "List", "Table", "Tree", "Tuple", "Thread"],
         Cfg.current.hasMark ty = true ∧ Cfg.current.isLeaf ty = false) ∧
-    (∀ ty ∈ ["Ref", "Box", "Probe"], Cfg.current.hasMark ty = false ∧ Cfg.current.isLeaf ty = false) ∧
+    (∀ ty ∈ ["Ref", "Box", "Probe", "ProbeD"], Cfg.current.hasMark ty = false ∧ Cfg.current.isLeaf ty = false) ∧
     (∀ ty ∈ ["Int", "Float", "String"], Cfg.current.isLeaf ty = true) ∧
-    Cfg.current.guarded = true ∧ Cfg.current.tlsCallback = true ∧ Cfg.current.scanInclusive = true := by
+    Cfg.current.guarded = true ∧ Cfg.current.tlsCallback = true ∧ Cfg.current.scanInclusive = true ∧
+    Cfg.current.foreignTls = true ∧ clearFirstNow = true := by
   decide
 
 /-- **Reachability goes through every representation** (for the source as it is now): the words the collector
@@ -615,6 +691,84 @@ theorem C01_fields_current (ws : List Word) (w : Word) (es : List Obj) :
   refine ⟨?_, ?_, ?_, ?_, ?_, ?_, ?_, ?_, ?_⟩ <;>
     simp [fields, viaMark, tlsWords, scanWords, hc, Cfg.isLeaf, Cfg.hasMark, hleaf, hmark, htls]
 
+/-- **`Thread_Mark` presents the table of EVERY Thread object the marker meets** (the source as it is: the guard
+    `self is current(Thread)` of 80c795e was withdrawn by 0a0ad73).  A Thread object found in the registry — never `current(Thread)`
+    of the marking thread: `new(Thread, f)` before it is called, or one that never runs — presents every key and value of its
+    table, exactly as `current(Thread)` does in the thread-local-storage phase of `GC_Mark`: objects stored with
+    `set(t, key, obj)` are reachable through the Thread object.  (The unsynchronised walk of a RUNNING thread's table is a known
+    limitation of the source, C13.) -/
+theorem C01_thread_table_traced (es : List Obj) :
+    fields Cfg.current (.thr "Thread" (.cont "Table" es)) = fieldsL Cfg.current es ∧
+    tlsWords Cfg.current (.thr "Thread" (.cont "Table" es)) = fieldsL Cfg.current es ∧
+    (∀ tls, fields Cfg.threadGuarded (.thr "Thread" tls) = []) := by
+  have hcfg : Cfg.current.leaf = ["Int", "Float", "String", "Type", "File", "Process", "Function"] ∧
+      Cfg.current.mark = ["Array", "List", "Table", "Thread", "Tree", "Tuple", "ProbeM"] ∧
+      Cfg.current.tlsCallback = true ∧ Cfg.current.foreignTls = true := by decide
+  obtain ⟨hleaf, hmark, htls, hf⟩ := hcfg
+  refine ⟨?_, ?_, ?_⟩
+  · simp [fields, viaMark, Cfg.isLeaf, Cfg.hasMark, hleaf, hmark, hf]
+  · simp [viaMark, tlsWords, Cfg.hasMark, hmark, htls]
+  · intro tls
+    have hl' : Cfg.threadGuarded.leaf = Cfg.current.leaf := rfl
+    have hm' : Cfg.threadGuarded.mark = Cfg.current.mark := rfl
+    have hf' : Cfg.threadGuarded.foreignTls = false := rfl
+    simp [fields, Cfg.isLeaf, Cfg.hasMark, hl', hm', hf', hleaf, hmark]
+
+/-- **Refuted for the variant with the WITHDRAWN repair 80c795e (`Thread_Mark` guarded by `self is current(Thread)`).**
+    4096 ↦ a Thread object that is not `current(Thread)` (created, not started), held by a stack word; the program has stored the
+    Probe at 4160 in it with `set(t, key, probe)`; nothing else refers to the Probe.  The Probe is reachable (for the source as
+    it is: `C01_thread_table_traced`) and a collection keeps it; with the guard the marker traces nothing below the Thread
+    object and the Probe is put on the pending list while the table still holds it (witness
+    corpus/gcmark_thread_table_sole_path.ops, the case that caught the withdrawn repair). -/
+theorem C01_thread_guard_refuted :
+    threadHeap.WF ∧ Reachable Cfg.current threadHeap (rootWords Cfg.current threadHeap emptyThread [4096]) 4160 ∧
+    4160 ∉ (collect listSet Cfg.current threadHeap emptyThread [4096]).2 ∧
+    4160 ∈ (collect listSet Cfg.threadGuarded threadHeap emptyThread [4096]).2 := by
+  have l0 : threadHeap.lookup 4096 = some ⟨.thr "Thread" (.cont "Table" [.raw "String" [0], .raw "Ref" [4160]]), false⟩ := rfl
+  have hreach : Reachable Cfg.current threadHeap (rootWords Cfg.current threadHeap emptyThread [4096]) 4160 :=
+    .step (.root (by simp [rootWords]) (by rw [l0]; rfl)) ⟨_, l0, by decide⟩ (by decide)
+  refine ⟨threadHeap_wf, hreach, (C01_sweep_safe listSet Cfg.current threadHeap threadHeap_wf emptyThread [4096] 4160 hreach).2.2, ?_⟩
+  rw [C01_sweep_exact listSet Cfg.threadGuarded threadHeap threadHeap_wf emptyThread [4096] 4160]
+  refine ⟨⟨.raw "Probe" [7], false⟩, rfl, rfl, ?_⟩
+  intro hr
+  have key : ∀ y, Reachable Cfg.threadGuarded threadHeap (rootWords Cfg.threadGuarded threadHeap emptyThread [4096]) y → y = 4096 := by
+    intro y hy
+    induction hy with
+    | root hmem _ =>
+      have hw : rootWords Cfg.threadGuarded threadHeap emptyThread [4096] = [4096] := by decide
+      rw [hw] at hmem
+      simpa using hmem
+    | step _ hp _ ih =>
+      subst ih
+      obtain ⟨e, hl, hb⟩ := hp
+      rw [l0] at hl
+      have he := (Option.some.inj hl).symm
+      subst he
+      have hf : fields Cfg.threadGuarded (.thr "Thread" (.cont "Table" [.raw "String" [0], .raw "Ref" [4160]])) = [] := by decide
+      rw [hf] at hb; cases hb
+  exact absurd (key 4160 hr) (by decide)
+
+/-- **`del(NULL)` is a no-op in every state of the release loop** (fix d3e4e44; was known finding KF-C17-null-del-sweep): a
+    destructor that deletes an optional member which is NULL (`owns (.raw "ProbeD" _) = [0]`) changes nothing — not the free
+    list, not the registry, not the list of finalised objects. -/
+theorem C01_del_null_noop (fin : RState → Addr → RState) (st : RState) :
+    remPtr fin st 0 = st ∧ owns (.raw "ProbeD" [7]) = [0] :=
+  ⟨remPtr_null fin st, rfl⟩
+
+/-- **Refuted for the OLD variant (`GC_Rem_Ptr` before fix d3e4e44, `remPtrPre`)**: the release loop is finalising the item at
+    4096 — it has set the item's slot of the free list to NULL — and the item's destructor calls `del(NULL)`: the free-list loop
+    of `GC_Rem_Ptr` compares `gc->freelist[i] is ptr`, finds the NULL slot and runs `dealloc(destruct(NULL))` (address 0 is
+    "finalised": a NULL dereference in C).  `remPtr`, the code as it is, returns at once; and for a pointer that is not NULL the
+    two agree. -/
+theorem C01_del_null_old_refuted :
+    let st : RState := { heap := boxHeap, pending := [none], finalised := [4096], exhausted := false }
+    0 ∈ (remPtrPre (finaliseAt boxHeap 1) st 0).finalised ∧ (remPtr (finaliseAt boxHeap 1) st 0).finalised = [4096] ∧
+    ∀ (fin : RState → Addr → RState) (s : RState) (v : Word), v ≠ 0 → remPtr fin s v = remPtrPre fin s v := by
+  refine ⟨by decide, by decide, ?_⟩
+  intro fin s v hv
+  obtain ⟨h1, h2⟩ := remPtr_nonnull fin s v hv
+  rw [h1, h2]
+
 /-- an element embedded in a container contributes its own words, wherever it sits -/
 theorem C01_fieldsL_mem (c : Cfg) (es : List Obj) (e : Obj) (he : e ∈ es) (w : Word) (hw : w ∈ fields c e) :
     w ∈ fieldsL c es := by
@@ -633,19 +787,27 @@ theorem C01_current_source {σ : Type} (S : MarkSet σ) (h : Heap) (wf : h.WF) (
       a ∉ (collect S Cfg.current h thread stack).2 :=
   C01_sweep_safe S Cfg.current h wf thread stack a hr
 
-/-- **C01 for the code in /repo now, over histories with the mark bits in the state** — with whatever `GC_Mark` does to the
-    bits before it starts in the CURRENT source (`CelloGen.GcMark.markClearsFirst`, re-extracted on every run: `false` for the
-    code as audited, `true` once the proposed repair is in).  In the first case the hypothesis "no exception leaves a mark
-    phase" is needed (`C01_stale_marks_refuted`), in the second it is not. -/
+/-- **C01 for the code in /repo now, over ALL histories with the mark bits in the state** — with what `GC_Mark` does to the bits
+    before it starts in the CURRENT source (`clearFirstNow` = `CelloGen.GcMark.markClearsFirst`, re-extracted on every run: `true`
+    since fix d8f0c4f).  No hypothesis on the initial bits, none on exceptions: a mark phase may be left by an exception after any
+    number of marking events, any number of times; every later collection still keeps every object reachable from thread-local
+    storage, a root-registered entry or a stack word off the pending list, registered, and — where no freed entry owns a
+    surviving one — not finalised and with unchanged contents.  (For the collector before the fix the hypothesis "no exception
+    leaves a mark phase" was needed: `C01_stale_marks_refuted`.) -/
 theorem C01_current_source_history {σ : Type} (S : MarkSet σ) (ops : List GOp) (s0 : GState)
-    (wf : s0.heap.WF) (hok : ∀ op ∈ ops, op.ok)
-    (hclean : CelloGen.GcMark.markClearsFirst = true ∨ (s0.stale = [] ∧ ∀ op ∈ ops, op.completes = true)) :
-    ∀ ev ∈ (GState.run S Cfg.current CelloGen.GcMark.markClearsFirst ops s0).2, ∀ a,
+    (wf : s0.heap.WF) (hok : ∀ op ∈ ops, op.ok) :
+    (GState.run S Cfg.current clearFirstNow ops s0).1.heap.WF ∧
+    ∀ ev ∈ (GState.run S Cfg.current clearFirstNow ops s0).2, ev.started = [] ∧ ∀ a,
       Reachable Cfg.current ev.before.heap (rootWords Cfg.current ev.before.heap ev.before.thread ev.before.stack) a →
-        a ∉ ev.pending ∧ (ev.exclusive S Cfg.current = true → a ∉ ev.finalised ∧ ev.after.lookup a = ev.before.heap.lookup a) := by
-  intro ev hev a hr
-  obtain ⟨_, h2⟩ := C01_history_safe_partial S Cfg.current CelloGen.GcMark.markClearsFirst ops s0 wf hok hclean
-  obtain ⟨e1, _, e3⟩ := (h2 ev hev).2 a hr
+        a ∉ ev.pending ∧ (ev.before.heap.lookup a).isSome = true ∧
+        (ev.exclusive S Cfg.current = true → a ∉ ev.finalised ∧ ev.after.lookup a = ev.before.heap.lookup a) :=
+  C01_history_safe_partial S Cfg.current clearFirstNow ops s0 wf hok (.inl (by decide))
+
+/-- **`C01_history_safe_exclusive_statement` is a theorem for the code in /repo now** (refuted for the collector before fix
+    d8f0c4f: `C01_stale_marks_refuted`) -/
+theorem C01_history_safe_exclusive : C01_history_safe_exclusive_statement clearFirstNow := by
+  intro ops s0 wf hok ev hev a hr
+  obtain ⟨e1, _, e3⟩ := ((C01_current_source_history listSet ops s0 wf hok).2 ev hev).2 a hr
   exact ⟨e1, e3⟩
 
 /-! ### non-vacuity and the repaired defects, on concrete heaps -/
@@ -673,7 +835,7 @@ example : ∀ op ∈ [HOp.alloc 4416 ⟨.raw "Ref" [4096], false⟩, .write 4224
   simp only [List.mem_cons, List.not_mem_nil, or_false] at hop
   rcases hop with h | h | h | h | h | h | h <;> subst h <;> simp [HOp.ok]
 
-/-- non-vacuity of the hypotheses of `C01_collect_safe_partial` / `C01_history_safe_partial`: a registry with a Box that is used
+/-- non-vacuity of the hypotheses of `C01_collect_safe_partial` / `C01_collect_safe_current` / `C01_history_safe_partial`: a registry with a Box that is used
     within its contract (root-registered Ref → Box → Probe, plus garbage) is well formed, the Probe is reachable through the
     Box, "no reachable object is owned by an unreachable one" holds, hence `boxExclusive`; no bit is set in the empty set; and
     a history with a store, a rehash and two completed collections meets `GOp.ok` and `GOp.completes`; the event of a
@@ -731,8 +893,9 @@ theorem C01_fixed_stack_refuted {σ : Type} (S : MarkSet σ) (d : Nat) :
     call structure of GC.c does not complete for any budget ≥ 2: `GC_Mark_And_Recurse` finds the pointer unregistered and
     calls `GC_Recurse` on it — memory the model knows nothing about (on the real machine: a freed block, witness
     corpus/kf_c01_dangling_tuple.ops).  When the freed block has not been reused, `type_of` throws ValueError there: the exception
-    LEAVES `GC_Mark` with the mark bits set so far, `GC_Sweep` is skipped, and the NEXT collection reclaims objects reachable only
-    through the stale-marked entries — `C01_stale_marks_refuted` (known finding KF-C01-stale-marks). -/
+    LEAVES `GC_Mark` with the mark bits set so far and `GC_Sweep` is skipped; since fix d8f0c4f the next `GC_Mark` clears those bits
+    first (`C01_current_source_history`); before it the NEXT collection reclaimed objects reachable only through the stale-marked
+    entries (`C01_stale_marks_refuted`). -/
 theorem C01_dangling_tuple_item_refuted {σ : Type} (S : MarkSet σ) (d : Nat) :
     danglingHeap.WF ∧ ¬ danglingHeap.CallbackSafe ∧
     (level S Cfg.current danglingHeap (d + 2)).item 4096 S.empty = .ub := by
